@@ -382,6 +382,11 @@ def run_json_option(case, d, rng, V, C, detail):
         spec = bdsk_json(d, surv, rng, extra={"origin": gm.param("bdsk.origin", [rootedge], dtype="torch.float64"), "origin_is_root_edge": True})
         judge(model_value(spec), oracle(d, surv), "origin_is_root_edge=true with origin = length of the root edge")
         judge(model_value(bdsk_json(d, surv, rng, extra={"origin_is_root_edge": False})), oracle(d, surv), "origin_is_root_edge=false")
+        # the two options together: epoch times as fractions of the origin, the origin given through the root edge
+        rel = [x / d["origin"] for x in tl]
+        spec = bdsk_json(d, surv, rng, extra={"origin": gm.param("bdsk.origin", [rootedge], dtype="torch.float64"), "origin_is_root_edge": True,
+                                              "times": gm.param("bdsk.times", rel, dtype="torch.float64"), "relative_times": True})
+        judge(model_value(spec), oracle(d, surv), "origin_is_root_edge=true together with relative_times=true", tag="+relative_times")
     elif opt == "rho_absent":
         d0 = dict(d)
         d0["rho"] = [0.0] * d["m"]
